@@ -386,6 +386,7 @@ func (p *Prog) Guards(b *ssa.BasicBlock) []Atom {
 		case 1:
 			if a := p.edgeAtom(x.Preds[0], x); a != nil {
 				out = append(out, *a)
+				out = append(out, p.expandBoolPhi(*a, 0)...)
 			}
 		default:
 			if or := p.orChain(x); or != nil {
@@ -523,4 +524,41 @@ func ResolveCell(v ssa.Value) ssa.Value {
 		v = sv
 	}
 	return v
+}
+
+// expandBoolPhi: a branch on a materialised short-circuit value.
+//   c := a && b   lowers to  phi(false | b)  — c true  ⇒ b true and the guards of b's block (a true);
+//   c := a || b   lowers to  phi(true  | b)  — c false ⇒ b false and the guards of b's block (a false).
+func (p *Prog) expandBoolPhi(a Atom, depth int) []Atom {
+	if depth > 3 || a.Op != token.ILLEGAL || a.X == nil {
+		return nil
+	}
+	ph, ok := a.X.(*ssa.Phi)
+	if !ok {
+		return nil
+	}
+	var other ssa.Value
+	var otherPred *ssa.BasicBlock
+	for i, e := range ph.Edges {
+		if k, isK := e.(*ssa.Const); isK && k.Value != nil && (k.Value.ExactString() == "true" || k.Value.ExactString() == "false") {
+			// the constant edge must be the value that contradicts the observed truth
+			if (k.Value.ExactString() == "true") == a.Truth {
+				return nil
+			}
+			continue
+		}
+		if other != nil {
+			return nil
+		}
+		other = e
+		otherPred = ph.Block().Preds[i]
+	}
+	if other == nil {
+		return nil
+	}
+	na := p.MkAtom(other, a.Truth, a.If)
+	out := []Atom{na}
+	out = append(out, p.Guards(otherPred)...)
+	out = append(out, p.expandBoolPhi(na, depth+1)...)
+	return out
 }
